@@ -145,6 +145,18 @@ func runAllocs(out *bufio.Writer, st *Stats, r *Rng, tier string) {
 				dstW := parent.Slice(0, 1)
 				srcW := parent.Slice(2*allocRuns+50, 2*allocRuns+51)
 				measure(out, st, "appendInPlace", det+"/same-parent", func() { dstW.Append(srcW) })
+				// source overlapping the range the append writes (windows of one parent), a fresh
+				// destination header per run so that every run is the same append
+				if L >= 4 {
+					ovParent := Alloc(k, false, signal.Allocator{Channels: ch, Length: L, Capacity: L})
+					dsts := make([]DynBuf, allocRuns+2)
+					for i := range dsts {
+						dsts[i] = ovParent.Slice(0, 2)
+					}
+					ovSrc := ovParent.Slice(1, 3)
+					next := 0
+					measure(out, st, "appendInPlace", det+"/overlapping-source", func() { dsts[next].Append(ovSrc); next++ })
+				}
 				win2 := b.Slice(0, b.Capacity()).Slice(1, 2) // spare capacity for allocRuns+1 more frames
 				measure(out, st, "appendInPlace", det+"/window", func() { win2.Append(one) })
 				// pool get/put cycle
